@@ -76,6 +76,12 @@ CHECKS = {
             '(suggest + complete by the same and by another worker). On the code every crash image must equal one state of the model\'s chain for that scenario (no torn state), all rows must '
             'decode, no orphan or duplicate rows, and the recovery probes must answer as the model says.',
             'Process death only (file + rollback journal copied at the point), SQLite DELETE journal mode, single server process. Scenarios crashed are a seeded sample of the model\'s transitions in quick.'),
+    'C09': (EX, '5 C09', 'Wire.tla value model: TLC enumerates the universe of parameter configs (kinds x scalings x falsy/truthy defaults x external types x conditional depth 1-3), '
+            'metric infos, measurements, trials and metadata deltas; each value converted to proto and back by the real converters (configs also through CreateStudy/GetStudy on SQLite); '
+            'TLC judges round trip and idempotence on the recorded observations',
+            'Exhaustive over the finite value model (7 774 values) with falsy values as first-class members; equality of the projected result with the enumerated value and byte-identity '
+            'of the second serialisation are judged by TLC. This is encode/decode fidelity: the specification contributes the value space, the statement of what may be lossy, and the judgement - not a model of protobuf.',
+            'Projection of pyvizier objects into the value model is done by the driver. Suggest/EarlyStop request/decision converters and fields outside the model are not covered.'),
 }
 
 PENDING = {
